@@ -210,6 +210,8 @@ Lemma t_skip' (P Qn Qb Qc : St -> Prop) : (forall s, P s -> Qn s) -> triple P Sk
 Proof. intros H fuel s s' k HP He. cbn in He. inversion He; subst. apply H; exact HP. Qed.
 Lemma t_break' (P Qn Qb Qc : St -> Prop) : (forall s, P s -> Qb s) -> triple P Break Qn Qb Qc.
 Proof. intros H fuel s s' k HP He. cbn in He. inversion He; subst. apply H; exact HP. Qed.
+Lemma t_continue' (P Qn Qb Qc : St -> Prop) : (forall s, P s -> Qc s) -> triple P Continue Qn Qb Qc.
+Proof. intros H fuel s s' k HP He. cbn in He. inversion He; subst. apply H; exact HP. Qed.
 Lemma t_pre (P P' : St -> Prop) c (Qn Qb Qc : St -> Prop) : (forall s, P' s -> P s) -> triple P c Qn Qb Qc -> triple P' c Qn Qb Qc.
 Proof. intros HP H fuel s s' k HP' He. exact (H fuel s s' k (HP _ HP') He). Qed.
 Lemma t_post (P : St -> Prop) c (Qn Qn' Qb Qc : St -> Prop) : (forall s, Qn s -> Qn' s) -> triple P c Qn Qb Qc -> triple P c Qn' Qb Qc.
